@@ -97,6 +97,7 @@ type Engine struct {
 	stack     []*ssa.Function
 	observed  []string
 	symOrder  bool
+	bufText   map[*Obj]*JSONText // bytes.Buffers that hold JSON text segments (jsonstream.go)
 	excuses   map[string]*Term
 	strLits   map[string]*Term
 	strTerms  []*Term
@@ -747,6 +748,12 @@ func (e *Engine) globalObj(g *ssa.Global) *Obj {
 		return o
 	}
 	pkg := g.Pkg
+	if pkg != nil && pkg.Pkg.Path() == "io" && g.Name() == "EOF" {
+		// the sentinel the JSON stream model returns (jsonstream.go)
+		o := e.newObj(e.newErr("EOF", nil, false), "global:io.EOF")
+		e.globals[g] = o
+		return o
+	}
 	runInit := pkg != nil && (strings.HasPrefix(pkg.Pkg.Path(), underTestPrefix) || strings.Contains(pkg.Pkg.Path(), "zzverif"))
 	if !runInit || e.initRunning[pkg] {
 		o := e.newObj(zero(g.Type().(*types.Pointer).Elem()), "global:"+g.String())
